@@ -92,7 +92,7 @@ func TestVerifC02Gating(t *testing.T) {
 		start := vgen.StartTime(t)
 		cfg := &telemetry.UploadConfig{GOOS: []string{"linux"}, GOARCH: []string{"amd64"}, GoVersion: []string{"go1.22.1"},
 			SampleRate: rapid.SampledFrom([]float64{0, 0.5, 1, 1, -1}).Draw(t, "sampleRate"),
-			Programs: []*telemetry.ProgramConfig{{Name: "cmd/go", Versions: []string{"go1.22.1"}, Counters: []telemetry.CounterConfig{{Name: "a/b", Rate: 1}}}}}
+			Programs:   []*telemetry.ProgramConfig{{Name: "cmd/go", Versions: []string{"go1.22.1"}, Counters: []telemetry.CounterConfig{{Name: "a/b", Rate: 1}}}}}
 		weeks := map[string]*c02Week{}
 		everSent := map[string]bool{}
 		var hist []string
